@@ -462,6 +462,13 @@ def _pad_slots(fa: FA, arg: ast.AST, at: int):
         if isinstance(x, ast.BinOp) and isinstance(x.op, ast.Add):
             flat(x.left)
             flat(x.right)
+        elif isinstance(x, (ast.List, ast.Tuple)) and any(isinstance(y, ast.Starred) for y in x.elts):
+            # [*A, b, *C]  ==  A + [b] + C
+            for y in x.elts:
+                if isinstance(y, ast.Starred):
+                    flat(y.value)
+                else:
+                    parts.append(ast.List(elts=[y], ctx=ast.Load()))
         else:
             parts.append(x)
     flat(e)
